@@ -43,7 +43,7 @@ def judge_classes(ctx, res, seed, per_class):
             failing_classes.add(key)
             member = f['member']
             if f['clause'] != 'not schema-valid':
-                member = member.split('.')[-1].split('[')[0].split(':')[-1]
+                member = f.get('descriptor') or member.split('.')[-1].split('[')[0].split(':')[-1]
             ctx.fail(f'classes: {key}: {f["clause"]} ({f["member"]})',
                      {'stream': 'classes', 'clause': f['clause'], 'member': member},
                      {'stream': 'classes', 'case': {'class': key, 'seed': seed, 'per_class': per_class},
